@@ -148,6 +148,13 @@ type recPS struct {
 	nets  []*net.IPNet
 	rec   *Recorder
 	nban  int
+	nhon  int // bans of honest peers
+}
+
+func (ps *recPS) honestBans() int {
+	ps.mu.Lock()
+	defer ps.mu.Unlock()
+	return ps.nhon
 }
 
 var _ syncer.PeerStore = (*recPS)(nil)
@@ -203,6 +210,9 @@ func (ps *recPS) Ban(addr string, _ time.Duration, reason string) error {
 		ps.ips[host] = true
 		if ps.rec.roles != nil {
 			who = ps.rec.roles(host)
+		}
+		if strings.HasPrefix(who, "honest:") {
+			ps.nhon++
 		}
 	}
 	ps.nban++
